@@ -16,12 +16,12 @@ package textwire
 // parsing builds a fresh lexer, parser and tree; it writes nothing that existed before
 // (proved: the parser writes only its own fields, its lexer, and memory it allocated)
 //@ func parseStr
-//@   ensures len(result1) == 0 ==> result0 != nil && WFNode(iface(result0))
+//@   ensures len(result1) == 0 ==> ProgWF(result0)
 //@   ensures len(result1) != 0 ==> result0 == nil
 //@   modifies nothing
 
 //@ func parseProgram
-//@   ensures result1 == nil && result2 == nil ==> result0 != nil && fresh(result0) && WFNode(iface(result0))
+//@   ensures result1 == nil && result2 == nil ==> fresh(result0) && ProgWF(result0)
 //@   ensures result1 == nil && result2 == nil ==> forall(i, 0, len(result0.Components), result0.Components[i].Block == nil)
 //@   ensures result1 == nil && result2 == nil ==> forallkey(result0.Reserves, k, result0.Reserves[k].Name.Value == k)
 //@   ensures result1 == nil && result2 == nil ==> forall(i, 0, len(result0.Components), forall(j, 0, len(result0.Components), i != j ==> result0.Components[i] != result0.Components[j]))
@@ -125,7 +125,7 @@ package textwire
 //@   modifies nothing
 
 //@ func applyLayoutToProgram
-//@   requires prog != nil && WFNode(iface(prog))
+//@   requires ProgWF(prog)
 //@   goal untouched-without-use: prog.UseStmt == nil ==> result == nil && prog.Statements == old(prog.Statements)
 //@   goal layout-replaces-page: result == nil && old(prog.UseStmt) != nil ==> len(prog.Statements) == 1 && prog.Statements[0] == iface(prog.UseStmt) && prog.UseStmt.Program != nil && prog.UseStmt.Program.IsLayout
 //@   modifies prog.Statements, prog.UseStmt.Program, anyfield(ast.ReserveStmt.Insert)
@@ -133,6 +133,7 @@ package textwire
 //@ func applyComponentToProgram
 //@   call New#0: assert unknown-component-names-the-use-and-the-page: arg0 == comp.Token.Pos.EndLine + 1 && arg1 == progFilePath
 //@   requires prog != nil && forall(i, 0, len(prog.Components), prog.Components[i].Block == nil)
+//@   requires forall(i, 0, len(prog.Components), WFNode(iface(prog.Components[i])))
 //@   requires forall(i, 0, len(prog.Components), forall(j, 0, len(prog.Components), i != j ==> prog.Components[i] != prog.Components[j]))
 //@   goal independent: result == nil ==> forall(i, 0, len(prog.Components), forall(j, 0, len(prog.Components), i != j && prog.Components[i].Block != nil ==> prog.Components[i].Block != prog.Components[j].Block))
 //@   modifies anyfield(ast.ComponentStmt.Block), anyfield(ast.SlotStmt.Body)
